@@ -154,6 +154,18 @@ class T:
         raise O.Unsupported("iteration over an opaque term (the stub must return a concrete tuple/list)")
 
 
+def tolerant(name: str) -> Callable:
+    """numpy.isclose / allclose on terms: a tolerance test is a question of its own -- "close" does not imply "equal" (only equal
+    implies close), so on the path where it answers yes nothing is learnt about the values"""
+    def f(a, b, *r, **k):
+        key = f"{name}({tv(a)}, {tv(b)})"
+        v = ORACLE.decide(name, key)
+        if not v:
+            ORACLE.facts.append(tv(a) != tv(b))       # not close => not equal
+        return v
+    return f
+
+
 def opaque(name: str, length: Optional[int] = None) -> Callable:
     """a pure, deterministic callee: result is name(args..., kw...)"""
     def f(*args, **kw):
@@ -253,6 +265,7 @@ def target_zhit():
                     captured["X_exp_used_for_chisqr"] = X_exp
                     return [(chi, xfit, "smoothing*", "interpolation*", "window*")]
                 ns.update({
+                    "isclose": tolerant("isclose"), "allclose": tolerant("allclose"),
                     "_is_boolean": lambda x: True, "_is_integer": lambda x: True, "_is_floating": lambda x: True, "_is_floating_array": lambda x: True,
                     "isinstance": lambda a, b: True, "DataSet": object, "_SMOOTHING_METHODS": ["auto"], "_INTERPOLATION_METHODS": ["auto"],
                     "_WINDOW_FUNCTIONS": {"boxcar": None}, "_initialize_window_functions": lambda: None,
